@@ -37,7 +37,10 @@ TRUSTED = ["modelled not verified: Ed25519, BLAKE3, ciborium byte layer, SQLite 
 RULE = ("val cases: valid signed operations for () / Node Basic / Node Causal extensions x payload/backlink presence x with/without body; for each "
         "every single-field mutation from a value pool (version, author key, payload size/hash, seq, backlink, every extension field, "
         "signature removed/garbage/bit flip, signed by another key, body replaced / attached / removed / empty), plus correctly signed "
-        "operations with arbitrary (inconsistent) field values, prune flag off with seq > 0, and double ingest; byte cases: single-byte "
+        "operations with arbitrary (inconsistent) field values, prune flag off with seq > 0, and double ingest; resub cases: the valid "
+        "original is ingested, then on the SAME store a copy is re-submitted (identical, body removed, every same-signature header "
+        "mutation, signature removed/garbage/flipped/other signer, body same-length/longer/empty/attached) and must be rejected unless "
+        "it is good (duplicate only for the original header with matching or no body), store still holding the original; byte cases: single-byte "
         "xor at every offset of the encoded header and body (quick: 2 Node-extension operations, one random mask per offset; thorough: 8 operations of all extension kinds, 3 masks, plus deletion/insertion at every offset). "
         "non-trivial = the operation reached validate_operation (decoded)")
 NONTRIVIAL_FLOOR = 100
@@ -69,6 +72,12 @@ def _base(rng, kind, payload, link):
 def _case(orig, header, body, signer="same", sig="ok", prune=True, twice=False, note=""):
     return {"kind": "val", "orig": orig, "hdr": header, "body": body,
             "signer": orig["key"] if signer == "same" else signer, "sig": sig, "prune": prune, "twice": twice, "note": note}
+
+
+def _resub(orig, body0, header, body, signer="same", sig="ok", note=""):
+    """the valid (orig, body0) is ingested first; then {header signed as in val, body} on the same store"""
+    return {"kind": "resub", "orig": orig, "body0": body0, "hdr": header, "body": body,
+            "signer": orig["key"] if signer == "same" else signer, "sig": sig, "note": note}
 
 
 def _other(rng, cur, pool):
@@ -175,6 +184,25 @@ def gen(tier, rng):
                     else:
                         yield _case(h, h, _body(rng), note="body-attached")
                         yield _case(h, h, [], note="body-empty")
+                    # re-submission on a store that already holds the valid original
+                    yield _resub(h, body, h, body, note="resub-identical")
+                    for note, x, b in _mutations(rng, h, body):
+                        yield _resub(h, body, x, b, note="resub-mut:" + note)
+                    yield _resub(h, body, h, body, sig="none", note="resub-sig-none")
+                    yield _resub(h, body, h, body, sig="garbage", note="resub-sig-garbage")
+                    for i in ([0, 63] if tier == "quick" else [0, 1, 31, 32, 63]):
+                        yield _resub(h, body, h, body, sig="flip%d" % i, note="resub-sig-flip")
+                    yield _resub(h, body, h, body, signer=_other(rng, h["key"], range(KEYS)), note="resub-wrong-signer")
+                    if body:
+                        n = len(enc._expand(body))
+                        yield _resub(h, body, h, None, note="resub-body-removed")
+                        yield _resub(h, body, h, _body(rng, n), note="resub-body-other")
+                        yield _resub(h, body, h, _body(rng, n + 1), note="resub-body-longer")
+                        yield _resub(h, body, h, _body(rng, max(1, n - 1)) if n > 1 else [], note="resub-body-shorter")
+                        yield _resub(h, body, h, [], note="resub-body-empty")
+                    else:
+                        yield _resub(h, body, h, _body(rng), note="resub-body-attached")
+                        yield _resub(h, body, h, [], note="resub-body-empty")
     # byte-level
     masks = (lambda: [rng.choice([1, 2, 4, 8, 16, 32, 64, 128, 255, rng.randrange(1, 256)])]) if tier == "quick" else \
         (lambda: [1, 128, rng.randrange(2, 255)])
@@ -246,6 +274,14 @@ def harness_line(case):
             "%s %s" % (case["signer"], case["sig"]),
             " ".join(_hdr_words(case["hdr"])),
             enc._bw(case["body"]) if case["body"] is not None else "-"])
+    if case["kind"] == "resub":
+        return " | ".join([
+            " ".join(["resub", _etype(case["hdr"])]),
+            " ".join(_hdr_words(case["orig"])),
+            "%s %s" % (case["signer"], case["sig"]),
+            " ".join(_hdr_words(case["hdr"])),
+            enc._bw(case["body"]) if case["body"] is not None else "-",
+            enc._bw(case["body0"]) if case["body0"] is not None else "-"])
     return " | ".join([
         " ".join(["byte", _etype(case["hdr"]), case["part"], case["mop"], str(case["pos"]), str(case["val"])]),
         " ".join(_hdr_words(case["hdr"])),
@@ -292,6 +328,9 @@ def coq_model(case):
     if case["kind"] == "val":
         return "model_val %s %s %s %s" % (_b(case["prune"]), _b(case["twice"]), _coq_header(case["hdr"], _sig_term(case)),
                                           _coq_body(case["body"]))
+    if case["kind"] == "resub":
+        return "model_resub %s %s %s %s" % (_coq_header(case["orig"], _valid_sig(case["orig"])), _coq_body(case["body0"]),
+                                            _coq_header(case["hdr"], _sig_term(case)), _coq_body(case["body"]))
     return "model_base %s %s" % (_coq_header(case["hdr"], _valid_sig(case["hdr"])), _coq_body(case["body"]))
 
 
@@ -358,6 +397,16 @@ def coq_oracle(case, impl):
         return "check_val %s %s %s %s %s %s %d%%N %d%%N %d%%N %d%%N %s" % (
             _b(case["prune"]), _coq_header(case["hdr"], _sig_term(case)), _coq_body(case["body"]), _b(f["val"] == "OK"),
             _icls(f["ing"]), _b(f["has"] == "1"), ob, tb, oa, ta, second)
+    if case["kind"] == "resub":
+        p1, p2 = impl.split(" | ")
+        f1, (ob, tb), (om, tm) = _verdict(p1)
+        f = dict(p.split("=", 1) for p in p2.split())
+        oa, ta = _rows(f["rows"])
+        return "check_resub %s %s %s %s %s %s %s %s %s %d%%N %d%%N %d%%N %d%%N %d%%N %d%%N %s %s" % (
+            _coq_header(case["orig"], _valid_sig(case["orig"])), _coq_body(case["body0"]),
+            _coq_header(case["hdr"], _sig_term(case)), _coq_body(case["body"]),
+            _b(f1["first"] == "NEW"), _b(f["val"] == "OK"), _icls(f["ing"]), _b(f["has"] == "1"), _b(f["hasorig"] == "1"),
+            ob, tb, om, tm, oa, ta, _b(f["samehash"] == "1"), _b(f["stored"] == "1"))
     parts = impl.split(" | ")
     base_new = _b(parts[0] == "base=NEW")
     if parts[1] == "NODEC":
@@ -373,7 +422,7 @@ def coq_oracle(case, impl):
 
 
 def agree(case, impl, model):
-    if case["kind"] == "val":
+    if case["kind"] in ("val", "resub"):
         return impl == model
     return impl.split(" | ")[0] == model
 
@@ -400,7 +449,7 @@ def shrink(case):
 
 
 def distribution(cases, impl):
-    d = {"val": 0, "byte": 0, "byte_not_decodable": 0, "byte_decoded_rejected": 0, "byte_decoded_accepted_same_content": 0,
+    d = {"val": 0, "resub": 0, "resub_rejected": 0, "resub_duplicate": 0, "resub_inserted": 0, "byte": 0, "byte_not_decodable": 0, "byte_decoded_rejected": 0, "byte_decoded_accepted_same_content": 0,
          "val_accepted": 0, "val_rejected": 0, "verdicts": {}, "notes": {}}
     for i, c in enumerate(cases):
         r = impl.get(i, "")
@@ -410,6 +459,12 @@ def distribution(cases, impl):
             n = c.get("note", "").split(":")[0]
             d["notes"][n] = d["notes"].get(n, 0) + 1
             v = r.split(" ")[0]
+        elif c["kind"] == "resub":
+            d["resub"] += 1
+            d["resub_inserted" if " ing=NEW" in r else "resub_duplicate" if " ing=DUP" in r else "resub_rejected"] += 1
+            n = c.get("note", "").split(":")[0]
+            d["notes"][n] = d["notes"].get(n, 0) + 1
+            v = "resub:" + (r.split(" | ")[1].split(" ")[1] if " | " in r else r)
         else:
             d["byte"] += 1
             if "NODEC" in r:
